@@ -30,12 +30,13 @@ import (
 )
 
 type stressWriter struct {
-	h      http.Header
-	status int
-	body   []byte
-	hook   func(string)
-	snap   string
-	snapOK bool
+	h            http.Header
+	status       int
+	body         []byte
+	hook         func(string)
+	snap         string
+	snapOK       bool
+	outerAppends bool
 }
 
 func (w *stressWriter) Header() http.Header {
@@ -50,6 +51,11 @@ func (w *stressWriter) WriteHeader(s int) {
 	}
 	if w.status == 0 {
 		w.status, w.snap, w.snapOK = s, headerFP(w.h), true
+		if w.outerAppends { // see recWriter.outerAppends: after the snapshot, so the judged response is unchanged
+			for k := range w.h {
+				w.h.Add(k, "appended-by-outer-layer")
+			}
+		}
 	}
 }
 func (w *stressWriter) Write(b []byte) (int, error) {
@@ -93,7 +99,7 @@ func stressServe(h http.Handler, q Req, hook func(string)) (out string, pan stri
 			pan = fmt.Sprint(p)
 		}
 	}()
-	w := &stressWriter{h: http.Header{}, hook: hook}
+	w := &stressWriter{h: http.Header{}, hook: hook, outerAppends: q.Shape%nShapes == 9}
 	h.ServeHTTP(w, q.build())
 	fp := w.snap
 	if !w.snapOK {
